@@ -29,5 +29,7 @@ SEEDED = [
     ("C07-3", "C07-USE"),
     ("C07-4", "C07-SHAPE"),
     ("C07-5", "C07-USE"),
+    ("C07-6", "C07-SHAPE"),
+    ("C07-7", "C07-ATT"),
 ]
 MUTANTS = list(MUTANTS) + [_P("seed-" + sid, _os.path.join(_SEEDS, sid, "patch.diff"), rule) for sid, rule in SEEDED if _os.path.exists(_os.path.join(_SEEDS, sid, "patch.diff"))]
